@@ -128,3 +128,13 @@ def fill(claim, NA):
 		  "and the DOCUMENTED one-period cost (1e-8), oul by objective value, (s,S) extraction, evaluation mode, K=0, T=1; myopic bounds per instance (labelled test).",
 		  "Trusted: Lean kernel + 3 axioms; harness; SciPy pmf/cdf and the loss-function values (inputs); FP in the grid-truncation rules (re-derived in the harness). "
 		  "Range doubling is handled by taking the x_range the code returns (the model reports whether the optimum sits at the top of the grid).")
+
+	claim('C09',
+		  "Theorems (Props/C09.lean). Finite pmf on {0..D} (any D, exact): loss_complement (nbar(x) - n(x) = x - E[X]), loss_nonneg, loss_monotone (n non-increasing, nbar "
+		  "non-decreasing), nbar_step / nbar_zero / cdf_branch_eq_definition (the cdf branch sum_{y<x} F(y) equals the definition E[(x-X)+]: summation by parts), second_loss_sum "
+		  "(factorial-moment pair sums to (1/2)(E[X^2] - (2x+1)E[X] + x^2 + x) = (1/2)((x-E)^2 + (x-E) + V)). Closed forms, for ANY primitive values f, F: poisson_complement, "
+		  "poisson_second_complement, std_normal_complement (first and second order), normal_complement, negbin_gamma_complement, uniform_complement. "
+		  "Tie: discrete_loss / discrete_second_loss (pmf-dict branch exactly, scipy-object branch 1e-9) vs the model; every closed form vs the model formula on the same SciPy "
+		  "primitives (1e-9) and vs its definition by direct summation / quadrature (labelled tests); complement, non-negativity on the Python values.",
+		  "Trusted: Lean kernel + 3 axioms; harness; SciPy primitives and quadrature. Open: closed form = definition for the infinite-support families (normal, lognormal, gamma, "
+		  "Poisson, geometric, negative binomial) is checked numerically only; the theorems there are the complement identities.")
